@@ -93,6 +93,19 @@ def jobs(tier):
                              kind="bounded", defines=d, unwind=n0 + napp + ln + 3, functions=["initDVectorList", "NewDVectorList", "DVectorListAppend", "DelDVectorList"],
                              bound="concrete history %s; contents symbolic" % tag,
                              clause="dvectorlist: append keeps earlier entries, stores deep equal copies, stays inside its slot table; delete frees everything once"))
+    # the "sort" operation: comparators over their full domain (loop-free: complete), sort routines with qsort by contract
+    SS = ["memwrapper.c", "numeric.c"]
+    J.append(Job("intcmp", "C14/sorting.c", entry="h_intcmp", srcs=SS, kind="proof", functions=["intcmp"], cbmc_flags=["--signed-overflow-check"],
+                 bound="", clause="comparator of SortUIVector orders the stored size_t values and does not overflow, for every pair of values (loop-free, full domain)"))
+    J.append(Job("cmp", "C14/sorting.c", entry="h_cmp", srcs=SS, kind="proof", functions=["cmp"], cbmc_flags=["--signed-overflow-check"],
+                 bound="", clause="comparator of DVectorSort/DVectorMedian orders every pair of non-NaN doubles (loop-free, full domain)"))
+    for n in ((2, 3) if tier == "quick" else (1, 2, 3, 4)):
+        J.append(Job("SortUIVector@n=%d" % n, "C14/sorting.c", entry="h_SortUIVector", srcs=SS, kind="bounded", defines={"VC_N": n}, unwind=n + 3,
+                     functions=["SortUIVector", "intcmp"], bound="%d elements, every size_t value" % n, cbmc_flags=["--signed-overflow-check"],
+                     clause="SortUIVector: ascending permutation of the stored values (qsort by contract)"))
+        J.append(Job("DVectorSort@n=%d" % n, "C14/sorting.c", entry="h_DVectorSort", srcs=SS, kind="bounded", defines={"VC_N": n}, unwind=n + 3,
+                     functions=["DVectorSort", "DVectorMedian", "cmp"], bound="%d elements, every non-NaN double" % n,
+                     clause="DVectorSort: ascending permutation; DVectorMedian: middle element / mean of the two middle elements (qsort by contract)"))
     return J
 
 
